@@ -164,7 +164,7 @@ Definition l2_wsize (dict : Z) : Z := (Z.min (Z.max dict 4096) 4294967280 + 15) 
    one 0x00 at the end. *)
 Definition mt_unit_written (lc lp pb dict : Z) (u : list Z * list l2ev * list Z) : Prop :=
   let '(data, evs, body) := u in
-  bytes_ok data = true /\ bytes_ok body = true /\ (forall ev, In ev evs -> ev <> L2Sym SEnd) /\
+  bytes_ok data = true /\ (forall ev, In ev evs -> ev <> L2Sym SEnd) /\
   lzma2_write lc lp pb dict None data evs = Ok (body ++ [0]).
 
 Definition mt_bodies (us : list (list Z * list l2ev * list Z)) : list Z := concat (map snd us).
